@@ -184,8 +184,10 @@ def main():
     api_broken = None
     try:
         mod.run(run)
-    except core.Disagreement:
-        pass
+    except core.Disagreement as e:
+        if run.violation is None:
+            run.violation = {'property': pid, 'what': str(e), 'implementation': str(e), 'model': None, 'requests': [],
+                             'seed': seed, 'tier': args.tier, 'case_index': run.evaluations}
     except core.ApiBroken as e:
         api_broken = str(e)
     except Exception as e:
